@@ -124,8 +124,15 @@ func (o asmOp) String() string {
 		return "B " + hex.EncodeToString(o.data)
 	case 'L', 'C', 'K', 'T':
 		return string(o.kind) + " " + o.label
-	case 'S':
-		return "S " + strconv.FormatUint(uint64(o.addr), 16)
+	case 'S', 'R', 'P':
+		return string(o.kind) + " " + strconv.FormatUint(uint64(o.addr), 16)
+	case 'J':
+		// (asm-cpu) a branch to a label together with the call that makes it fall through
+		s := "J " + o.m.name + " " + o.label
+		for _, a := range o.args {
+			s += " " + strconv.FormatUint(uint64(a), 16)
+		}
+		return s
 	}
 	return string(o.kind)
 }
@@ -276,6 +283,45 @@ type refRec struct {
 	label string
 	at    uint32 // address of the operand
 	wide  bool
+	meth  string // the method that emitted the reference
+}
+
+// WDC opcodes of the instructions that take a label operand (program-counter relative 8 / absolute 16)
+var labelOpcode = map[string]byte{
+	"BPL": 0x10, "BMI": 0x30, "BVC": 0x50, "BVS": 0x70, "BRA": 0x80, "BCC": 0x90, "BCS": 0xB0, "BNE": 0xD0, "BEQ": 0xF0,
+	"JMP": 0x4C, "JSR": 0x20,
+}
+
+// labelRoundTrip (C03, decode clause for methods whose operand is a label): in a successfully finalized program the bytes of
+// every accepted label-taking method are the opcode of its mnemonic followed by an operand that decodes back to the address
+// of the label the method was given.  Returns a complaint or "".
+func labelRoundTrip(code []byte, base uint32, refs []refRec, labels map[string]uint32) string {
+	for _, r := range refs {
+		t, def := labels[r.label]
+		idx := int(r.at - base)
+		n := 1
+		if r.wide {
+			n = 2
+		}
+		if !def || idx < 1 || idx+n > len(code) {
+			continue
+		}
+		mn := r.meth
+		if k := strings.Index(mn, "_"); k >= 0 {
+			mn = mn[:k]
+		}
+		if op, known := labelOpcode[mn]; known && code[idx-1] != op {
+			return fmt.Sprintf("%s(%q) at $%06x: opcode byte %02x, the 65816 encodes %s as %02x", r.meth, r.label, r.at-1, code[idx-1], strings.ToLower(mn), op)
+		}
+		if r.wide {
+			if got := uint32(code[idx]) | uint32(code[idx+1])<<8; got != t&0xFFFF {
+				return fmt.Sprintf("%s(%q) at $%06x reads % x after Finalize: it decodes to a jump to $%04x, label %q is at $%06x", r.meth, r.label, r.at-1, code[idx-1:idx+2], got, r.label, t)
+			}
+		} else if got := int64(r.at) + 1 + int64(int8(code[idx])); got != int64(t) {
+			return fmt.Sprintf("%s(%q) at $%06x reads % x after Finalize: it decodes to a branch to $%06x, label %q is at $%06x", r.meth, r.label, r.at-1, code[idx-1:idx+1], got, r.label, t)
+		}
+	}
+	return ""
 }
 
 type emState struct {
@@ -452,7 +498,7 @@ func execAsm(c asmCase) asmRun {
 						s.starts = append(s.starts, pc)
 						if len(o.m.widths) == 1 && o.m.widths[0] == 0 {
 							wide := e.PC()-pc == 3
-							s.refs = append(s.refs, refRec{o.label, pc + 1, wide})
+							s.refs = append(s.refs, refRec{o.label, pc + 1, wide, o.m.name})
 						}
 					}
 					hasTarget := (s == orig && c.cap >= 0) || (s != orig && e.Cap() > 0)
@@ -536,6 +582,13 @@ func execAsm(c asmCase) asmRun {
 				switch {
 				case err == nil:
 					res = "ok"
+					// C03: what a label-taking method emitted decodes back to that method's mnemonic and to its label
+					// (judged on the emitter that holds the whole program: a clone's buffer starts in the middle of it)
+					if s == orig && c.cap >= 0 {
+						if msg := labelRoundTrip(after, base, s.refs, s.labels); msg != "" {
+							complain("C03", msg)
+						}
+					}
 					if !wantOK {
 						complain("C06", "Finalize succeeded although a reference is unresolved or out of range")
 					} else if !bytes.Equal(after, exp) {
@@ -996,6 +1049,12 @@ func runAsm() {
 	}
 	distinct := map[string]bool{}
 	var ops int64
+	// families of emitters first (their own PRNG stream; the histories below are the same as before for a given seed)
+	nFam := 1500
+	if tier == "thorough" {
+		nFam = 30000
+	}
+	ops += runFamilies(rep, ms, prng.New(seed^0xFA3117), nFam)
 	for i, c := range cases {
 		run := execAsm(c)
 		ops += int64(len(c.ops))
@@ -1087,7 +1146,14 @@ func runAsm() {
 				}
 				return false
 			})
-			rep.Add(report.Finding{Property: prop, Kind: "violation", Clause: "emitter vs property oracle: " + msg[5:], Input: m.String(), Actual: strings.Join(execAsm(m).out, ";")})
+			mr := execAsm(m)
+			for _, mm := range mr.oracle {
+				if propsOfOracle(mm) == prop {
+					msg = mm // the complaint as it reads on the shrunk history
+					break
+				}
+			}
+			rep.Add(report.Finding{Property: prop, Kind: "violation", Clause: "emitter vs property oracle: " + msg[5:], Input: m.String(), Actual: strings.Join(mr.out, ";")})
 		}
 		mask := func(out []string) []string {
 			// listings are only specified (and compared) for programs whose emissions were all accepted
@@ -1113,7 +1179,10 @@ func runAsm() {
 	rep.Evaluations = ops
 	rep.Distinct = int64(len(distinct))
 	rep.CountN("histories", int64(len(cases)))
-	rep.Rule = "directed branch distances 0..130 and 32766..131071 in both directions; target buffers: plain and windows into a larger array (guarded); label names of 2..21 characters; " +
+	rep.Rule = "families of emitters (Go oracles only): 1..3 roots fed the same head plus a dry-run root, clones of the first root with and without a buffer and of the dry root fed the same tail, " +
+		"the clone appended back and to the other roots while the clone, the original and the receivers go on emitting, every live emitter re-observed (state, hex and text listing) after every call; " +
+		"directed: a fragment of 0..17 listing records handed to two fresh emitters; " +
+		"directed branch distances 0..130 and 32766..131071 in both directions; target buffers: plain and windows into a larger array (guarded); label names of 2..21 characters; " +
 		"random emitter histories over all instruction methods (by reflection), labels before/after/missing/redefined, data blocks of lengths 0,1,15,16,17,31,32,33,48,100.., comments, " +
 		"non-zero bases, REP/SEP masks, capacities from 0 to ample and nil targets, clone/append splits with observation of the original in between; directed branch distances 0,1,125..130 forward and backward; " +
 		"every history also runs on a dry-run twin and (for splits) as direct emission; listings parsed into (kind, address, bytes, text) records. " +
